@@ -256,6 +256,18 @@ pub struct World {
     pub last_commit_aead: Vec<AeadSealRec>,
     /// last key package generated by each party (encoded MlsMessage)
     pub last_kp: BTreeMap<usize, Vec<u8>>,
+    /// second instances of members, loaded from a copy of their storage, fed the same incoming
+    /// messages as long as the member only receives (C06 lockstep oracle)
+    pub twins: BTreeMap<usize, Twin>,
+    pub twin_failure: Option<Failure>,
+    pub twin_checks: u64,
+}
+
+pub struct Twin {
+    pub group: VGroup,
+    pub client: VClient,
+    pub ctl: Arc<FaultCtl>,
+    pub deliveries: u64,
 }
 
 #[derive(Clone, Debug, Default)]
@@ -274,6 +286,13 @@ pub struct CommitSpec {
     pub aad: Vec<u8>,
     /// order seed for delivering in-flight traffic to each member before the commit
     pub order: u16,
+}
+
+pub enum Stage<'a> {
+    /// the commit has been built and is pending at the committer
+    AfterBuild { committer: usize },
+    /// right before `receiver` processes the genuine commit
+    BeforeReceive { receiver: usize, bytes: &'a [u8] },
 }
 
 pub struct CommitInfo {
@@ -306,6 +325,9 @@ impl World {
             last_commit_hpke: vec![],
             last_commit_aead: vec![],
             last_kp: BTreeMap::new(),
+            twins: BTreeMap::new(),
+            twin_failure: None,
+            twin_checks: 0,
         }
     }
 
@@ -482,6 +504,7 @@ impl World {
     // ---- traffic ---------------------------------------------------------------------------
 
     pub fn send_app(&mut self, p: usize, payload: Vec<u8>, aad: Vec<u8>) -> Result<(), OpErr> {
+        self.drop_twin(p);
         let epoch = self.epoch;
         let party = &mut self.parties[p];
         let leaf = party.leaf();
@@ -502,6 +525,7 @@ impl World {
     }
 
     pub fn push_proposal(&mut self, p: usize, msg: MlsMessage, aad: Vec<u8>) -> Result<(), OpErr> {
+        self.drop_twin(p);
         let bytes = msg.to_bytes().map_err(|e| OpErr::Mls(format!("{e:?}")))?;
         self.log_wire("proposal", &bytes);
         let leaf = self.parties[p].leaf();
@@ -521,10 +545,91 @@ impl World {
     pub fn process(&mut self, p: usize, bytes: &[u8]) -> Result<ReceivedMessage, OpErr> {
         let t = self.now();
         let party = &mut self.parties[p];
-        guard(|| {
+        let r = guard(|| {
             let m = MlsMessage::from_bytes(bytes)?;
             party.gm().process_incoming_message_with_time(m, t)
+        });
+        if self.twins.contains_key(&p) {
+            self.feed_twin(p, bytes, r.as_ref().map(|_| ()).map_err(|e| e.class()));
+        }
+        r
+    }
+
+    fn feed_twin(&mut self, p: usize, bytes: &[u8], real: Result<(), String>) {
+        let t = self.now();
+        let prop = self.prop;
+        let Some(twin) = self.twins.get_mut(&p) else { return };
+        let r = guard(|| {
+            let m = MlsMessage::from_bytes(bytes)?;
+            twin.group.process_incoming_message_with_time(m, t)
         })
+        .map(|_| ())
+        .map_err(|e| e.class());
+        twin.deliveries += 1;
+        self.twin_checks += 1;
+        if r != real && self.twin_failure.is_none() {
+            self.twin_failure = Some(Failure::new(
+                format!("{prop}|reloaded_twin_diverges|outcome"),
+                format!("party {p}: member {real:?}, twin loaded from storage {r:?}"),
+            ));
+            return;
+        }
+        let party = &self.parties[p];
+        let a = {
+            let _s = party.ctl.suspend();
+            party.g().verif_state()
+        };
+        let b = {
+            let _s = twin.ctl.suspend();
+            twin.group.verif_state()
+        };
+        if let (Ok(a), Ok(b)) = (a, b) {
+            // the member (written, not reloaded) still holds the reference of the key package it joined
+            // with; the loaded twin does not: unobservable, see props/c06.rs
+            let d: Vec<(String, String)> = a.diff(&b).into_iter().filter(|(c, _)| c != "pending_key_package_removal").collect();
+            if !d.is_empty() && self.twin_failure.is_none() {
+                let mut comps: Vec<&str> = d.iter().map(|(c, _)| c.as_str()).collect();
+                comps.sort();
+                comps.dedup();
+                self.twin_failure = Some(Failure::new(
+                    format!("{prop}|reloaded_twin_diverges|diff={}", comps.join(",")),
+                    format!("party {p} after {} deliveries: {d:?}", twin.deliveries),
+                ));
+            }
+        }
+    }
+
+    /// Save party p, copy its storage, and load a second instance (twin) from the copy.
+    pub fn spawn_twin(&mut self, p: usize) -> Result<(), OpErr> {
+        self.save(p)?;
+        let suite = self.cfg.suite;
+        let gid = self.group_id.clone();
+        let party = &self.parties[p];
+        let ctl = Arc::new(FaultCtl::default());
+        ctl.reset();
+        let gstore = party.gstore.fork(ctl.clone());
+        let rules = DefaultMlsRules::new()
+            .with_commit_options(party.commit_opts)
+            .with_encryption_options(party.enc_opts)
+            .with_custom_proposals_that_require_update_path(vec![]);
+        let client = build_client(
+            party.crypto.clone(),
+            party.idp.clone(),
+            gstore,
+            party.kstore.clone(),
+            party.pstore.clone(),
+            rules,
+            party.identity.clone(),
+            party.signer.clone(),
+            suite,
+        );
+        let group = guard(|| client.load_group(&gid))?;
+        self.twins.insert(p, Twin { group, client, ctl, deliveries: 0 });
+        Ok(())
+    }
+
+    pub fn drop_twin(&mut self, p: usize) {
+        self.twins.remove(&p);
     }
 
     /// Deliver all in-flight traffic of the current epoch to every member except the sender, each
@@ -604,6 +709,7 @@ impl World {
 
     /// Build a commit at `committer` per `spec`. Ok(None) = the library refused to build it.
     pub fn build_commit(&mut self, committer: usize, spec: &CommitSpec) -> Result<Result<CommitOutput, OpErr>, Failure> {
+        self.drop_twin(committer);
         let t = self.tick();
         let suite = self.cfg.suite;
         let mut kps = vec![];
@@ -671,7 +777,7 @@ impl World {
     /// apply at the committer, join the added parties. Returns Ok(None) when the library refused
     /// to build the commit (the caller decides whether that matters).
     pub fn commit_round(&mut self, committer: usize, spec: &CommitSpec) -> Result<Result<CommitInfo, OpErr>, Failure> {
-        self.commit_round_with(committer, spec, &mut |_, _, _| Ok(()))
+        self.commit_round_with(committer, spec, &mut |_, _| Ok(()))
     }
 
     /// `commit_round` with a hook that runs right before each receiver processes the genuine
@@ -680,7 +786,7 @@ impl World {
         &mut self,
         committer: usize,
         spec: &CommitSpec,
-        hook: &mut dyn FnMut(&mut World, usize, &[u8]) -> CaseResult,
+        hook: &mut dyn FnMut(&mut World, Stage) -> CaseResult,
     ) -> Result<Result<CommitInfo, OpErr>, Failure> {
         let prop = self.prop;
         self.flush(spec.order)?;
@@ -696,6 +802,7 @@ impl World {
         };
         let commit_bytes = out.commit_message.to_bytes().expect("commit encodes");
         self.log_wire("commit", &commit_bytes);
+        hook(self, Stage::AfterBuild { committer })?;
         let mut welcome_bytes = vec![];
         for w in &out.welcome_messages {
             let b = w.to_bytes().expect("welcome encodes");
@@ -716,7 +823,7 @@ impl World {
             if *m == committer {
                 continue;
             }
-            hook(self, *m, &commit_bytes)?;
+            hook(self, Stage::BeforeReceive { receiver: *m, bytes: &commit_bytes })?;
             let r = self.process(*m, &commit_bytes);
             match r {
                 Err(e) if e.is_panic() => return Err(panic_failure(prop, "process_incoming_message(commit)", &e)),
@@ -889,7 +996,7 @@ impl World {
         tree_in_info: bool,
         order: u16,
     ) -> Result<Result<CommitInfo, OpErr>, Failure> {
-        self.external_commit_round_with(joiner, via, remove_leaf, tree_in_info, order, &mut |_, _, _| Ok(()))
+        self.external_commit_round_with(joiner, via, remove_leaf, tree_in_info, order, &mut |_, _| Ok(()))
     }
 
     #[allow(clippy::too_many_arguments)]
@@ -900,9 +1007,10 @@ impl World {
         remove_leaf: Option<u32>,
         tree_in_info: bool,
         order: u16,
-        hook: &mut dyn FnMut(&mut World, usize, &[u8]) -> CaseResult,
+        hook: &mut dyn FnMut(&mut World, Stage) -> CaseResult,
     ) -> Result<Result<CommitInfo, OpErr>, Failure> {
         let prop = self.prop;
+        self.drop_twin(joiner);
         self.flush(order)?;
         let epoch_before = self.epoch;
         let t = self.tick();
@@ -952,7 +1060,7 @@ impl World {
             if *m == joiner {
                 continue;
             }
-            hook(self, *m, &commit_bytes)?;
+            hook(self, Stage::BeforeReceive { receiver: *m, bytes: &commit_bytes })?;
             match self.process(*m, &commit_bytes) {
                 Err(e) if e.is_panic() => return Err(panic_failure(prop, "process_incoming_message(external commit)", &e)),
                 Err(e) => {
@@ -1131,6 +1239,7 @@ impl World {
 
     /// Drop the in-memory group of party p and load it again from its storage.
     pub fn reload(&mut self, p: usize) -> Result<(), OpErr> {
+        self.drop_twin(p);
         let gid = self.group_id.clone();
         let party = &mut self.parties[p];
         let g = guard(|| party.client.load_group(&gid))?;
